@@ -182,7 +182,7 @@ fn permutations(n: usize) -> Vec<Vec<usize>> {
 }
 
 fn multisets(ctx: &mut Ctx, conv: &Converter) {
-    let n = ctx.budget(6_000, 1_500_000);
+    let n = ctx.budget(6_000, 4_000_000);
     multisets_n(ctx, conv, n)
 }
 
@@ -398,7 +398,7 @@ fn named_lists(ctx: &mut Ctx, conv: &Converter) {
 
 fn recipes(ctx: &mut Ctx, conv: &Converter) {
     let parser = CooklangParser::new(Extensions::all(), conv.clone());
-    let n = ctx.budget(4_000, 600_000);
+    let n = ctx.budget(4_000, 1_800_000);
     let (plain, mixed) = (GenOpts::extended(), GenOpts::extended_mixed());
     for it in 0..n {
         // half of the recipes let references change the quantity class (text after number, other units)
@@ -719,7 +719,7 @@ pub fn run(ctx: &mut Ctx) {
     if let Some(layer) = toml::from_str::<cooklang::convert::UnitsFile>("[extend.units]\ntbsp = { aliases = [\"T\"] }\ntsp = { aliases = [\"t\"] }\ng = { aliases = [\"gr\"] }\nl = { names = [\"litro\", \"litros\"] }\n").ok() {
         if let Some(c2) = Converter::builder().with_units_file(cooklang::convert::UnitsFile::bundled()).ok().and_then(|b| b.with_units_file(layer).ok()).and_then(|b| b.finish().ok()) {
             let keep = ctx.tier;
-            multisets_n(ctx, &c2, ctx.budget(1_500, 300_000));
+            multisets_n(ctx, &c2, ctx.budget(1_500, 900_000));
             ctx.count("multisets_with_case_differing_unit_keys");
             let _ = keep;
         }
